@@ -9,8 +9,8 @@
      X s                      -> string        re_escape_str
      E ci s val               -> T | F         rmatch ci (regex_escape s) val
      P ci s val               -> T | F         rmatch ci (regex_prefix s) val
-     Q ic ir nk bk  <pats> <keys> <parents> <others>   -> ids   run_query
-     N ic ir <pats> <keys> <objs>                      -> ids   run_netlists
+     Q ic ir nk bk  <pats> <keys> <folded ids> <parents> <others>   -> ids   run_query
+     N ic ir <pats> <keys> <folded ids> <objs>                    -> ids   run_netlists
      H ic ir <pats> <names> <refs-in-order> <in_yield> -> ids   run_hier
      op <ir op>                                        -> ok | <exception>   one step of the IR model (same op
                                                           syntax as driver_ir.ml / driver_hier.ml); "reset" starts over
@@ -257,6 +257,8 @@ let handle line =
     let pats, rest = take_list rest str_of_tok in
     let keys, rest = take_pairs rest optstr_of_tok in
     let key = keyfun keys in
+    let folded, rest = take_list rest int_of_string in
+    let fold = fun (i : nat) -> List.mem (int_of_nat i) folded in
     let nparents, rest = (match rest with c :: r -> (int_of_string c, r) | [] -> failwith "parents") in
     let rec parents k acc l =
       if k = 0 then (List.rev acc, l) else
@@ -264,7 +266,7 @@ let handle line =
         | mode :: l' ->
           let ch, l'' = take_list l' (fun x -> nat_of_int (int_of_string x)) in
           let lk = (match mode with
-              | "s" -> scan_lookup key ch
+              | "s" -> scan_lookup key fold ch
               | "l" -> lookup_lower key ch
               | _ -> failwith "bad lookup mode") in
           parents (k - 1) ((lk, ch) :: acc) l''
@@ -272,12 +274,14 @@ let handle line =
     let ps, rest = parents nparents [] rest in
     let others, _ = take_list rest (fun x -> nat_of_int (int_of_string x)) in
     let bkv = (match bk with "f" -> BFound | "d" -> BNames | _ -> failwith "bad bk") in
-    ids_out (run_query (bool_of_tok ic) (bool_of_tok ir) key (bool_of_tok nk) bkv ps others pats)
+    ids_out (run_query (bool_of_tok ic) (bool_of_tok ir) key fold (bool_of_tok nk) bkv ps others pats)
   | "N" :: ic :: ir :: rest ->
     let pats, rest = take_list rest str_of_tok in
     let keys, rest = take_pairs rest optstr_of_tok in
+    let folded, rest = take_list rest int_of_string in
+    let fold = fun (i : nat) -> List.mem (int_of_nat i) folded in
     let objs, _ = take_list rest (fun x -> nat_of_int (int_of_string x)) in
-    ids_out (run_netlists (bool_of_tok ic) (bool_of_tok ir) (keyfun keys) objs pats)
+    ids_out (run_netlists (bool_of_tok ic) (bool_of_tok ir) (keyfun keys) fold objs pats)
   | "H" :: ic :: ir :: rest ->
     let pats, rest = take_list rest str_of_tok in
     let names, rest = take_pairs rest str_of_tok in
